@@ -84,6 +84,18 @@ func (fc *FuncContract) GoCheck(i int, argVars, resVars []string) (pre []string,
 				return &ast.ParenExpr{X: &ast.BinaryExpr{X: &ast.UnaryExpr{Op: token.NOT, X: &ast.ParenExpr{X: tr(n.Args[0], inOld)}}, Op: token.LOR, Y: &ast.ParenExpr{X: tr(n.Args[1], inOld)}}}
 			case "len", "cap":
 				return &ast.CallExpr{Fun: id, Args: []ast.Expr{tr(n.Args[0], inOld)}}
+			case "ite":
+				// generic helper emitted into the replay test (verifIte)
+				if len(n.Args) != 3 {
+					okAll = false
+					return n
+				}
+				return &ast.CallExpr{Fun: ast.NewIdent("verifIte"), Args: []ast.Expr{tr(n.Args[0], inOld), tr(n.Args[1], inOld), tr(n.Args[2], inOld)}}
+			case "eqmem":
+				return &ast.CallExpr{Fun: ast.NewIdent("verifEq"), Args: []ast.Expr{tr(n.Args[0], inOld), tr(n.Args[1], inOld)}}
+			case "fresh":
+				// allocation freshness cannot be observed from a test; the clause's other conjuncts are evaluated
+				return ast.NewIdent("true")
 			case "forall":
 				// forall(i, lo, hi, body): an executable loop; an index panic inside the body counts as false
 				iv, isIv := n.Args[0].(*ast.Ident)
